@@ -124,3 +124,22 @@ for _p in ("C01", "C09"):
     _old = PROPS[_p]["shards"]
     PROPS[_p]["shards"] = (lambda old: (lambda tier, seed, search=False: old(tier, seed, search) + http_shards(tier, seed, search)))(_old)
     PROPS[_p]["rule"] = PROPS[_p]["rule"] + "; plus the HTTP family (same operations through the real handlers and the real setec.Client)"
+
+
+def c18_shards(tier, seed, search=False):
+    prof = ["-profile", "thorough"] if tier == "thorough" else []
+    out = [Shard("cli", ["-seed", str(seed), "-n", "12" if tier == "quick" else "60", "-aux", "@CLI"] + prof, driver="cli")]
+    for s in seeds(seed, 2 if tier == "quick" else 6):
+        out.append(Shard("bytes", ["-seed", str(s), "-n", "30" if tier == "quick" else "200"] + prof, driver="bytes"))
+    return out
+
+
+PROPS["C18"] = dict(
+    shards=c18_shards,
+    trusted=BASE_TRUST + ["encoding/base64 and encoding/json at every hop; utf8.Valid and bytes.TrimSpace (Go standard library) define 'valid UTF-8' and 'whitespace' for the CLI policy"],
+    assumptions=["standard input is a pipe or a file (the interactive terminal prompt is not covered)"],
+    rule=("(i) the built setec binary run against a local server: value classes {empty, clean text, leading/trailing ASCII and Unicode space, space only, invalid UTF-8 with space, NUL, "
+          "multi-line, U+200B} plus random bytes x all 8 flag combinations x {file, pipe}; observed: exit status, whether /api/put was contacted, the bytes that reached the database; "
+          "(ii) byte strings {empty, NUL, newlines, invalid UTF-8, all 256 bytes, JSON-hostile, sizes 1..70000 (thorough: 4 MiB), random} through client get, get-version, Store handle, "
+          "store restarted from its cache with the service unreachable, file-backed client on the cache file, and both gets after a server restart"),
+)
